@@ -773,7 +773,7 @@ Qed.
 Theorem snapshot_fault_atomic : forall g w m s user cr k e,
   cfg_ok g -> fixed g = true -> fix_commit g = false ->
   InvS g (mkst w (Some m)) -> ok_op g (mkst w (Some m)) (OSnap s user cr) -> EE e ->
-  let p := op_prog g (Some m) (OSnap s user cr) in
+  let p := lift (create_disk g m s user cr) in
   (forall c, call_at p w k = Some c -> traced c = true /\ ~ f11_at p w k) ->
   exists vpre vpost,
     recover g w = Some vpre /\ recover g (fst (ff p w)) = Some vpost
@@ -787,10 +787,10 @@ Proof.
   assert (Hffp : ff p w = (fst (ff (create_disk g m s user cr) w),
                           match snd (ff (create_disk g m s user cr) w) with
                           | Done (m', r) => Done (Some m', r, O) | Crashed => Crashed | Aborted x => Aborted x end)).
-  { subst p. cbn [op_prog]. unfold lift. rewrite ff_bind. destruct (ff (create_disk g m s user cr) w) as [w' [[m' r] | |]]; reflexivity. }
+  { subst p. unfold lift. rewrite ff_bind. destruct (ff (create_disk g m s user cr) w) as [w' [[m' r] | |]]; reflexivity. }
   split; [rewrite Hffp; exact Hrp |].
   apply FAO_exec with (ex := f11_at p w).
-  - subst p. cbn [op_prog]. eapply FAO_lift. eapply FA_mono; [| exact HFA].
+  - subst p. eapply FAO_lift. eapply FA_mono; [| exact HFA].
     intros j [H1 [j' [Hj H2]]]. split; [rewrite call_at_lift; exact H1 | exists j'; split; [exact Hj | rewrite call_at_lift; exact H2]].
   - rewrite Hffp. destruct HFO as [vk [H1 [H2 H3]]]. exists vk. cbn [fst snd]. split; [exact H1 | split; [exact H2 |]].
     intros a Ha Hoka. destruct (snd (ff (create_disk g m s user cr) w)) as [[m' r] | |]; try discriminate.
@@ -881,10 +881,10 @@ Proof.
 Qed.
 
 Theorem checkpoint_fault_atomic : forall g w m c,
-  fixed g = true -> InvS g (mkst w (Some m)) -> fault_ok g (op_prog g (Some m) (OCheckpoint c)) w.
+  fixed g = true -> InvS g (mkst w (Some m)) -> fault_ok g (lift (set_checkpoint g m c)) w.
 Proof.
   intros g w m c Hfx [v [Hrec [Hwf [Hfr [Hag Hh]]]]]. cbn [s_fs s_mem] in *.
-  cbn [op_prog]. unfold lift, set_checkpoint. cbn zeta.
+  unfold lift, set_checkpoint. cbn zeta.
   apply vol_op_fault with (v := v); try assumption.
   - cbn. apply (agree_head g v m Hag).
   - intros x. eexists. reflexivity.
@@ -919,7 +919,7 @@ Qed.
 Theorem snapshot_fault_ok : forall g w m s user cr,
   cfg_ok g -> fixed g = true -> fix_commit g = false ->
   InvS g (mkst w (Some m)) -> ok_op g (mkst w (Some m)) (OSnap s user cr) ->
-  fault_ok11 g (op_prog g (Some m) (OSnap s user cr)) w.
+  fault_ok11 g (lift (create_disk g m s user cr)) w.
 Proof. intros g w m s user cr H1 H2 H3 H4 H5 k e He Hc. apply snapshot_fault_atomic; assumption. Qed.
 
 (** Resize *)
@@ -959,7 +959,7 @@ Proof.
 Qed.
 
 Theorem resize_fault_atomic : forall g w m sz,
-  fixed g = true -> InvS g (mkst w (Some m)) -> fault_ok g (op_prog g (Some m) (OResize sz)) w.
+  fixed g = true -> InvS g (mkst w (Some m)) -> fault_ok g (lift (resize g m sz)) w.
 Proof.
   intros g w m sz Hfx Hinv. destruct (InvS_ctx g w m Hinv) as [v Hctx].
   pose proof (cx_rec _ _ _ _ Hctx) as Hrec. pose proof (cx_ag _ _ _ _ Hctx) as Hag.
@@ -986,10 +986,10 @@ Proof.
     - intros a Ha0. inversion Ha0. cbn. discriminate. }
   apply fault_ok_intro with (v := v) (vpost := vpost) (ex := fun _ => False).
   - exact Hrec.
-  - cbn [op_prog]. unfold lift. rewrite ff_bind, HffF. cbn [fst]. apply HctxF.
-  - cbn [op_prog]. unfold lift. rewrite ff_bind, HffF. cbn [ff fst snd]. exists vpost. split; [apply HctxF |].
+  - unfold lift. rewrite ff_bind, HffF. cbn [fst]. apply HctxF.
+  - unfold lift. rewrite ff_bind, HffF. cbn [ff fst snd]. exists vpost. split; [apply HctxF |].
     split; [right; apply veq_refl | intros; apply veq_refl].
-  - cbn [op_prog]. apply FAO_lift. exact HFA.
+  - apply FAO_lift. exact HFA.
   - intros j [].
 Qed.
 
@@ -1788,6 +1788,39 @@ Proof.
     cbn [apply_call]. rewrite H. cbn [snd is_err bind is_ok res_eqb negb]. apply FA_ret.
 Qed.
 
+(** the repaired Snapshot / Resize / SetCheckpoint ([keepold]: the memory at entry is what a failure
+    exit returns) issue the same calls and leave the same directory as their bodies; only the
+    memory inside a non-success outcome differs, which [FOutO] does not look at *)
+Lemma keepold_ret : forall g m (a : mem * res), exists b, Ret (keep_old g m a) = Ret b.
+Proof. intros. eexists. reflexivity. Qed.
+
+Lemma call_at_keepold : forall g m (p : prog (mem * res)) w j, call_at (lift (keepold g m p)) w j = call_at (lift p) w j.
+Proof.
+  intros g m p w j. rewrite !call_at_lift. unfold call_at, keepold.
+  rewrite (step_at_ret_cont _ _ p _ w j (keepold_ret g m)).
+  destruct (step_at p w j) as [[[c kont] wk] |]; reflexivity.
+Qed.
+
+Lemma fault_okx_keepold : forall (X X' : nat -> Prop) g m (p : prog (mem * res)) w,
+  (forall k, X k -> X' k) ->
+  fault_okx X g (lift p) w -> fault_okx X' g (lift (keepold g m p)) w.
+Proof.
+  intros X X' g m p w HX H k e He Hc.
+  destruct (H k e He) as [vpre [vpost [H1 [H2 H3]]]].
+  { intros c Hcc. rewrite <- call_at_keepold with (g := g) (m := m) in Hcc. destruct (Hc c Hcc) as [Ht Hn].
+    split; [exact Ht | intro E; apply Hn; apply HX; exact E]. }
+  exists vpre, vpost. split; [exact H1 |]. split.
+  - unfold lift, keepold. unfold lift in H2. rewrite !ff_bind. rewrite ff_bind in H2.
+    destruct (ff p w) as [w' [[m' r] | |]]; cbn [ff fst snd] in *; try exact H2.
+    destruct (keep_old g m (m', r)) as [m2 r2]. exact H2.
+  - unfold fexec in *. rewrite exec_lift, exec_keepold. rewrite exec_lift in H3.
+    destruct (exec p w 0 None (Some (k, e))) as [[w1 t] o]. unfold dir_of_run, out_of_run in *. cbn [fst snd] in *.
+    destruct H3 as [vk [G1 [G2 G3]]]. exists vk. split; [exact G1 | split; [exact G2 |]].
+    intros a Ha Hok. destruct o as [[m' r] | |]; cbn [map_outcome] in *; try discriminate.
+    inversion Ha; subst a. unfold okO in Hok. cbn [fst snd] in Hok. rewrite keep_old_res in Hok. cbn [snd] in Hok.
+    apply (G3 (Some m', r, O)); [reflexivity | exact Hok].
+Qed.
+
 (** ** C08, one failing call: every operation of the model, from every state of the invariant.
     The only exclusion: in Snapshot (createDisk), the directory sync that follows the rename of
     volume.meta (finding F11, createdisk-sync-after-commit). *)
@@ -1808,12 +1841,13 @@ Proof.
     + apply Hmono. apply close_fault_atomic; assumption.
     + apply Hmono. cbn [op_prog]. destruct mo as [[| | |] |]; eapply fault_ok_ret; exact Hrec.
     + apply Hmono. apply write_fault_atomic; assumption.
-    + apply snapshot_fault_ok; assumption.
+    + cbn [op_prog]. eapply fault_okx_keepold; [| apply snapshot_fault_ok; assumption].
+      intros k [H1 [j' [Hj H2]]]. cbn [excluded]. split; [rewrite call_at_keepold; exact H1 | exists j'; split; [exact Hj | rewrite call_at_keepold; exact H2]].
     + apply Hmono. apply remove_fault_atomic; assumption.
     + apply Hmono. apply prepare_fault_atomic; assumption.
     + apply Hmono. apply revert_fault_atomic; assumption.
-    + apply Hmono. apply resize_fault_atomic; assumption.
-    + apply Hmono. apply checkpoint_fault_atomic; assumption.
+    + apply Hmono. cbn [op_prog]. eapply fault_okx_keepold; [| apply resize_fault_atomic; assumption]. auto.
+    + apply Hmono. cbn [op_prog]. eapply fault_okx_keepold; [| apply checkpoint_fault_atomic; assumption]. auto.
     + apply Hmono. cbn [op_prog]. destruct b; destruct (mstate m); try (eapply fault_ok_ret; exact Hrec); apply rebuilding_fault_atomic; assumption.
     + apply Hmono. apply replace_refused_fault_atomic; assumption.
   - destruct o; try (apply Hmono; cbn [op_prog]; eapply fault_ok_ret; exact Hrec).
